@@ -293,34 +293,80 @@ def r3(ctx, R):
     pops = [c for c in calls_in(f.node) if isinstance(c.func, ast.Attribute) and c.func.attr in ("pop",) and access_path(c.func.value) and access_path(c.func.value).endswith("obj_tree")]
     dels = [st for st in ctx.m.walk_own(f.node) if isinstance(st, ast.Delete) and any("obj_tree" in unparse(t) for t in st.targets)]
     adds = [st for st in ctx.m.walk_own(f.node) if isinstance(st, ast.Assign) and isinstance(st.targets[0], ast.Subscript) and access_path(st.targets[0].value) and access_path(st.targets[0].value).endswith("obj_tree")]
-    ast_set = [st for st in ctx.m.walk_own(f.node) if isinstance(st, ast.Assign) and isinstance(st.targets[0], ast.Attribute) and st.targets[0].attr == "ast" and not isinstance(st.value, ast.Call)]
-    if not adds or not ast_set:
-        R.undecided("C10.R3", f.short, "re-index shape", loc(f, f.node), "add loop / AST assignment not recognised")
+    summ = ctx.e.summaries()
+    # points where the file's AST field is (re)installed: a direct store of something that is not a
+    # freshly built empty AST, or a call whose callee writes the receiver's / an argument's `.ast`
+    installs = []
+    for st in ctx.m.walk_own(f.node):
+        if isinstance(st, ast.Assign) and isinstance(st.targets[0], ast.Attribute) and st.targets[0].attr == "ast" and not isinstance(st.value, ast.Call):
+            installs.append((st, "direct store"))
+    for c in calls_in(f.node):
+        for q in ctx.r.resolve_call(f, c)[1]:
+            for (root, path, kind) in summ.get(q, {}):
+                first = path[0] if isinstance(path, tuple) and path else path
+                if first == "ast" and (root == "self" or root.startswith("param:")) and kind == "assign" and isinstance(c.func, ast.Attribute):
+                    installs.append((c, f"{ctx.m.funcs[q].short} stores {root}.ast"))
+    ast_set = [st for st, how in installs if how == "direct store"]
+    if not adds or not installs:
+        R.undecided("C10.R3", f.short, "re-index shape", loc(f, f.node), "add loop / AST installation not recognised")
         return
     prune = pops[0] if pops else (dels[0] if dels else None)
     if prune is None:
         R.violation("C10.R3", f.short, "old entries pruned", loc(f, adds[0]), "the previous version's top-level entries are never removed from the global table: a module that was renamed or deleted stays resolvable")
     else:
-        pn = cfg.node_of(prune)
         # the prune loop iterates the OLD ast's table
         lp = ctx.m.parent.get(ctx.m.enclosing_stmt(prune))
         while lp is not None and not isinstance(lp, ast.For):
             lp = ctx.m.parent.get(lp)
         old_src = unparse(lp.iter) if lp is not None else ""
-        new_names = {unparse(st.value) for st in ast_set}
         iter_root = old_src.split(".")[0]
-        uses_new = any(iter_root == nn for nn in new_names)
-        an = cfg.node_of(ast_set[0])
-        before = prune.lineno < ast_set[0].lineno and prune.lineno < adds[0].lineno
+        # where the old AST is read: the definitions of the loop's root variable that read `.ast`, else the loop itself
+        from .shared import reaching_def_nodes
+
+        reads = []
+        if lp is not None:
+            for d in reaching_def_nodes(ctx, f, lp, iter_root):
+                if isinstance(d, ast.Assign) and any(isinstance(x, ast.Attribute) and x.attr == "ast" for x in ast.walk(d.value)):
+                    reads.append(d)
+            if not reads and ".ast" in old_src:
+                reads = [lp]
+        new_names = {unparse(st.value) for st in ast_set}
+        for c, how in installs:
+            if how != "direct store":
+                st = ctx.m.enclosing_stmt(c)
+                if isinstance(st, ast.Assign) and isinstance(st.targets[0], ast.Name):
+                    new_names.add(st.targets[0].id)
+        uses_new = iter_root in new_names
+        late = None
+        for rd in reads:
+            rn = cfg.node_of(rd)
+            for st, how in installs:
+                n_i = cfg.node_of(st)
+                if n_i is None or rn is None:
+                    continue
+                succ = {t for t, lab in n_i.succs if not (lab and lab[0] == "exc")}
+                if rn.id in cfg.reachable_without(succ, set(), follow_exc=False):
+                    late = (rd, st, how)
+        pn = cfg.node_of(prune)
+        add_first = None
+        for ad in adds:
+            an = cfg.node_of(ad)
+            if an is not None and pn is not None and pn.id in cfg.reachable_without({t for t, lab in an.succs if not (lab and lab[0] == "exc")}, set(), follow_exc=False) and not any(x is ad for x in ast.walk(lp or prune)):
+                add_first = ad
         if uses_new:
             R.violation("C10.R3", f.short, key(f, lp), loc(f, lp), f"the prune loop walks the *new* AST's entries ({old_src}): names that only the old version defined are never removed")
-        elif not before:
-            R.violation("C10.R3", f.short, key(f, ctx.m.enclosing_stmt(prune)), loc(f, prune), "old entries are pruned after the new AST has been installed / the new entries added: entries just added are removed again or the old table is no longer available")
+        elif not reads:
+            R.undecided("C10.R3", f.short, key(f, lp) if lp is not None else "prune", loc(f, prune), f"source of the pruned table not recognised ({old_src})")
+        elif late:
+            R.violation("C10.R3", f.short, key(f, late[0]), loc(f, late[0]), f"the 'old' AST is read after the new one can already be installed ({late[2]}, line {late[1].lineno}): the prune loop walks the new version's names, so top-level units that were renamed or removed stay in the global table")
+        elif add_first is not None:
+            R.violation("C10.R3", f.short, key(f, ctx.m.enclosing_stmt(prune)), loc(f, prune), "old entries are pruned after the new entries have been added: entries just added are removed again")
         else:
-            R.ok("C10.R3", f.short, key(f, lp) if lp is not None else "prune", loc(f, prune), f"prunes {old_src} before installing the new AST")
+            R.ok("C10.R3", f.short, key(f, lp) if lp is not None else "prune", loc(f, prune), f"prunes {old_src} (read before any installation of the new AST: {sorted({h for _, h in installs})})")
+    first_touch = min([st.lineno for st, _ in installs if not isinstance(st, ast.Call)] + [adds[0].lineno])
     # failed parse: the except path returns before any of prune / install / add
     handlers = [h for n in ctx.m.walk_own(f.node) if isinstance(n, ast.Try) for h in n.handlers]
-    ok = bool(handlers) and all(any(isinstance(x, ast.Return) for s_ in h.body for x in ast.walk(s_)) for h in handlers) and all(h.lineno < min(ast_set[0].lineno, adds[0].lineno) for h in handlers)
+    ok = bool(handlers) and all(any(isinstance(x, ast.Return) for s_ in h.body for x in ast.walk(s_)) for h in handlers) and all(h.lineno < first_touch for h in handlers)
     if ok:
         R.ok("C10.R3", f.short, "a failed parse returns before the index is touched", loc(f, handlers[0]))
     else:
